@@ -310,6 +310,8 @@ def check(run):
     from . import C11
     C11.ob_validated_set(run, "O10.1e")
     C11.ob_coder_reset(run, "O10.1f")
+    from . import C05
+    C05.ob_stale_events(run, "O10.1g")
     ob_validate_then_use(run, "O10.2")
     ob_sanitise_tx(run, "O10.3")
     ob_lock_order(run, "O10.4")
